@@ -156,6 +156,23 @@ func (jenny *Builder) generateBuilder(context languages.Context, builder ast.Bui
 			// the class `isinstance()` accepts for the values of a type: annotations such
 			// as `list[str]`, `typing.Literal["a"]`, `typing.Optional[…]` or `None` are not classes
 			"formatRuntimeClass": func(def ast.Type) string {
+				// a reference is followed down to what is a class at run time: an alias
+				// (`Alias: typing.TypeAlias = 'Inner'`) or a named list are not
+				followed := map[string]struct{}{}
+				for def.IsRef() {
+					if _, seen := followed[def.AsRef().String()]; seen {
+						break
+					}
+					followed[def.AsRef().String()] = struct{}{}
+
+					referred, found := context.LocateObjectByRef(def.AsRef())
+					if !found || referred.Type.IsStruct() || referred.Type.IsEnum() {
+						break
+					}
+
+					def = referred.Type
+				}
+
 				switch {
 				case def.IsArray():
 					return "list"
